@@ -20,10 +20,12 @@ EXPLANATION = (
     "distribution is historized before the search, and the 'not checked' tail is exactly "
     "associations_xagg[n_combination + 1:] of the accepted combination; the order applied and stored in "
     "values_orders is the accepted combination's); R-history-fields (each "
-    "history record carries combination, the sort_by value, viability and message)."
+    "history record carries combination, the sort_by value, viability and message); R-measure-formula (the "
+    "association stored with each combination is the documented formula, with n the total of the very table "
+    "that was grouped); optional `feature` arguments are tested with `is None` (0 and '' are column labels)."
 )
 NOT_DECIDED = "agreement of summary contents with transform outputs on data"
-FLOORS = {"R-summary-scope": 3, "R-single-table": 4, "R-history-complete": 6, "R-history-fields": 2, "R-readonly-queries": 30}
+FLOORS = {"R-summary-scope": 5, "R-measure-formula": 4, "R-single-table": 4, "R-history-complete": 6, "R-history-fields": 2, "R-readonly-queries": 30}
 
 
 def _emits(node, sink="summaries"):
@@ -211,12 +213,19 @@ def check(ctx):
     rule_nan_flag_source(ctx)
     rule_history_complete(ctx)
     rule_history_fields(ctx)
+    from . import carver
+    from .truthiness import check_optional_by_none
+
+    check_optional_by_none(ctx, "R-summary-scope", [ctx.repo.find_function(f"{F_BASE}::BaseDiscretizer.summary"), ctx.repo.find_function(f"{F_BASE}::BaseDiscretizer.history")])
+    carver.check_measure_formula(ctx, "R-measure-formula")
 
 
 MUTANTS = [
     M("D5-reverted: NaN rows of other quantitative features leak", [(F_BASE, "            if feature in requested_features and self.str_nan in raw_labels_per_values[feature]:", "            if self.str_nan in raw_labels_per_values[feature]:")], "R-summary-scope", quick=True),
     M("summary loops over all features", [(F_BASE, "        for feature in requested_features:\n            # adding each value/label", "        for feature in self.features:\n            # adding each value/label")], "R-summary-scope"),
     M("summary accepts dropped features", [(F_BASE, "            assert feature in self.features, (\n                f\"Discretization of feature {feature} was not \" \"requested or it has been dropped.\"\n            )\n", "")], "R-summary-scope", "requested features ="),
+    M("summary(feature) tests the label by truthiness", [(F_BASE, "        requested_features = self.features[:]\n        if feature is not None:", "        requested_features = self.features[:]\n        if feature:")], "R-summary-scope", "is None"),
+    M("n_obs taken once from the table with the missing-value row", [(F_BC, "        n_obs = xagg.apply(sum).sum()  # number of observations for xtabs\n        associations_xagg = [\n            self._association_measure(grouped_xagg, n_obs=n_obs)", "        associations_xagg = [\n            self._association_measure(grouped_xagg, n_obs=self._n_obs)")], "R-measure-formula", "n_obs"),
     M("D25-reverted: summary reads the global dropna", [(F_BASE, "                if not (not self.features_dropna[feature] and value == self.str_nan):", "                if not (not self.dropna and value == self.str_nan):")], "R-single-table", "features_dropna", quick=True),
     M("summary recomputes labels with the float dtype", [(F_BASE, "            for value, label in self.labels_per_values[feature].items():", "            for value, label in self._get_labels_per_values('float')[feature].items():")], "R-single-table"),
     M("break before historization", [(F_BC, "            # historizing combinations and tests\n            self._historize_viability_test(", "            if best_association is not None:\n                break\n            # historizing combinations and tests\n            self._historize_viability_test(")], "R-history-complete", "every tested", quick=True),
